@@ -73,14 +73,23 @@ CLAIMS = {
                 "(_before/_after_statement_execution) are not yet under contract.",
     },
     "C34": {
-        "category": "other",
-        "text": "Bounded stand-in only (not a proof): the real OrderedSet/FrozenOrderedSet are checked against the reference "
-                "model 'duplicate-free list' for every public operation over an exhaustive small scope (all ordered sets "
-                "over {0,1,2}, all argument sequences of length <= 2 over {0..3}, seven kinds of iterable incl. one-shot "
-                "iterators and generators, self-aliasing, indices -len-1..len, operation histories of length 2).",
-        "technique": "bounded contract check, exhaustive small scope (stand-in; the methods use itertools/varargs/"
-                     "self.__class__, outside the verifier's subset)",
-        "note": "no unbounded claim; the reference model in contracts/c34.py is trusted; elements are small ints only.",
+        "category": "proof",
+        "text": "Unbounded proof (z3/cvc5, VCs generated from the real source on every run) for the methods that work on the "
+                "backing dict directly - __init__, __len__, __contains__, __getitem__, add, discard, clear, update, "
+                "intersection_update, difference_update, symmetric_difference_update - with the dict modelled as a finite map "
+                "plus an insertion rank: each mutator's postcondition states the resulting member set exactly, that members "
+                "that stay keep their relative order, that old members precede new ones and that new members are ordered by "
+                "their first occurrence in the argument; __getitem__(i) returns the i-th key of the iteration view for "
+                "-len <= i < len and raises IndexError exactly otherwise. The remaining operations (union, intersection, "
+                "difference, symmetric_difference, issubset, issuperset, __eq__, __reversed__, freeze, __hash__; one-shot "
+                "iterators and self-aliasing arguments for all operations) are covered by the bounded stand-in only: the real "
+                "classes against the reference model 'duplicate-free list' over an exhaustive small scope.",
+        "technique": "contract-based deductive verification (sidecar contracts, loop invariants over member set and rank) + "
+                     "bounded contract check, exhaustive small scope",
+        "note": "assumed (A-ODICT): dict semantics - a new key is ranked above all existing keys, deletion and a dict "
+                "comprehension over the dict itself keep relative ranks, dict.fromkeys inserts in iteration order, iteration "
+                "visits the keys in rank order; elements are abstract values whose == and hash agree with identity; iterable "
+                "arguments are modelled as re-iterable sequences in the proof (one-shot iterators: bounded part only).",
     },
     "C19": {
         "category": "proof",
@@ -479,6 +488,12 @@ ROUND3 = {
 for _k, _v in ROUND3.items():
     CLAIMS[_k]["text"] += _v
 ROUND4 = {
+    'C01': " The first part also runs with no coverage metric at all (dynamic seeding only), and the vectors include a str subclass whose __len__ prints.",
+    'C25': " The type universe includes the tuple of unknown size, 3-tuples and tuple[Any].",
+    'C26': " The subject module has generators and parameters for 2-tuples that agree in one position only, 3-tuples and the plain tuple.",
+    'C28': " Every higher-order mutant is compared with a pristine parse while it is applied in place (differences only at or below its mutated nodes); an exception raised by the enumeration itself is reported with the state of the original tree.",
+    'C30': " One test case closes descriptor 0; descriptors 0-2 are compared by (device, inode), not only by openness.",
+    'C32': " Also: two non-terminating test cases in a row (the first sleeping in slices of 0.52-0.95 s so that its abandoned thread wakes up during the second); both must be reported as time-outs with empty results.",
     'C03': " The covered verdicts are read twice: from the zero distances of the trace and through every BranchGoal of the real BranchGoalPool (is_covered); both must equal the interpreter's outcomes. The vectors include floats closer than one machine epsilon and denormals.",
     'C29': " The operation list of the bounded part includes compound operations (directory + file + rename of a scratch file onto its final name; nested makedirs; several temporaries renamed in turn), so that recorded paths have disappeared again before the isolation exits.",
 }
